@@ -107,6 +107,11 @@ def handleProc (kv : List (String × String)) (impl : String) : String × String
   | _, none => ("-", s!"fail:crash:unparsable observation {impl.take 120}")
 
 def handle : Handler := fun input impl =>
+  -- the framework's observations of a run that did not end / that panicked
+  if impl.startsWith "HANG" then
+    ("-", "fail:run-bound:the run did not end within the driver's time limit (HANG): no progress, the run length is not bounded")
+  else if impl.startsWith "PANIC" then ("-", s!"fail:panic:{impl.take 160}")
+  else
   if getS (parseKV input) "mode" == "proc" then handleProc (parseKV input) impl else
   match parseInput (parseKV input), parseObs (parseKV impl) with
   | some i, some o =>
